@@ -169,16 +169,24 @@ func c13R1(c *Ctx, a *c13A) {
 		if sf == nil {
 			c.unresolved(R, "internal/dnsutil.TypeServerFailure", "constant not found")
 		} else {
-			for _, in := range instrsWhere(wm, isCallTo(a.sSetKey, a.sSetScoped)) {
-				rv := callArg(in, 2)
-				c.c13Guarded(R, wm, "store write only for a response classified as a non-failure", []ssa.Instruction{in},
-					c13OnCmp("ClassifyResponse(same res) != TypeServerFailure", func(e *Expr) bool {
+			// the store write may sit in WriteMsg or in an unexported helper split off
+			// from it: the classification guard then stands in WriteMsg, on the value
+			// the helper is handed (c13GuardedVal follows the stored response out of
+			// the helper's parameter to the argument of each call site)
+			writes := instrsInScope(wm, isCallTo(a.sSetKey, a.sSetScoped))
+			if len(writes) == 0 {
+				c.unresolved(R, fnKey(wm)+"|store write only for a response classified as a non-failure", "no store write found in WriteMsg or its helpers (rule would pass vacuously)")
+			}
+			for _, in := range writes {
+				c.c13GuardedVal(R, wm, "store write only for a response classified as a non-failure", in, callArg(in, 2), func(rv ssa.Value) []Barrier {
+					return []Barrier{c13OnCmp("ClassifyResponse(same res) != TypeServerFailure", func(e *Expr) bool {
 						e = strip(e)
 						if e == nil || e.K != EExtract || e.Idx != 0 || e.X == nil || e.X.K != ECall || !sameFunc(e.X.Fn, a.classify) || len(e.X.Args) < 1 {
 							return false
 						}
 						return e.X.Args[0].V == rv
-					}, token.EQL, c13ConstIs(sf), false))
+					}, token.EQL, c13ConstIs(sf), false)}
+				})
 			}
 		}
 	}
@@ -722,9 +730,21 @@ func c13R6(c *Ctx, a *c13A) {
 	const cp = "middleware/cache"
 	c.Doc(R, "reset on success: in WriteMsg every path from a store write (SetFromResponseWithKey/Scoped) to return calls resetMatchingFailures, with the writer's client scope; in setFromResponseWithKey a positive Set is followed by resetQuestionFailure unless scoped; resetQuestionFailure/recordFailureQuestion there run only across scoped=false (a scoped write never touches the global audience)")
 	if wm := c.fn(R, cp+".(*ResponseWriter).WriteMsg"); wm != nil {
-		c.Paired(R, wm, "store write → resetMatchingFailures", isPlainCallTo(a.sSetKey, a.sSetScoped), isPlainCallTo(a.sResetMatching))
+		// a store write that sits in an unexported helper and can reach the helper's
+		// return without the reset makes the call of that helper the acquire site
+		c.Paired(R, wm, "store write → resetMatchingFailures", c13AcquireThroughHelpers(isPlainCallTo(a.sSetKey, a.sSetScoped), isPlainCallTo(a.sResetMatching)), isPlainCallTo(a.sResetMatching))
+		// both store writers are part of the mechanism, wherever they stand
+		for _, w := range []*types.Func{a.sSetKey, a.sSetScoped} {
+			if w != nil && len(instrsInScope(wm, isPlainCallTo(w))) == 0 {
+				c.unresolved(R, fnKey(wm)+"|store write "+w.Name(), "no call in WriteMsg or its helpers (the pairing would not cover this writer)")
+			}
+		}
 		scopeF := c.field(R, cp+".ResponseWriter.clientScope")
-		for _, in := range instrsWhere(wm, isPlainCallTo(a.sResetMatching)) {
+		resets := instrsInScope(wm, isPlainCallTo(a.sResetMatching))
+		if len(resets) == 0 {
+			c.unresolved(R, fnKey(wm)+"|reset scope", "no resetMatchingFailures call found")
+		}
+		for _, in := range resets {
 			c.OriginCheck(R, R+"|WriteMsg|reset scope", in, "resetMatchingFailures scope", callArg(in, 3), nil, FieldIs(scopeF))
 		}
 	}
@@ -738,7 +758,10 @@ func c13R6(c *Ctx, a *c13A) {
 			c.c13Guarded(R, fn, "global-audience record only for unscoped writes", instrsWhere(fn, isPlainCallTo(a.sRecordQ)), OnFalse("scoped", scoped))
 		}
 	}
-	c.Floor(R, 7)
+	// WriteMsg: ≥1 paired store write (each writer's presence is checked above; how
+	// many textual copies of the shared-key branch there are is a matter of shape)
+	// + reset scope; setFromResponseWithKey: pairing + two audience guards
+	c.Floor(R, 5)
 }
 
 // ---------------------------------------------------------------------------
